@@ -171,6 +171,13 @@ class Space:
                 return np.linalg.matrix_power(b, int(e))
             if not np.allclose(b, np.diag(np.diag(b))):
                 raise ValueError("non-integer power of a non-diagonal operator")
+            if e.has(BosonOp, LadderOp, FermionOp, pauli.SigmaOpBase, NumberOperator, NOF):
+                # operator-valued exponent (2**N): both base and exponent must be diagonal
+                em = self.expr_matrix(e)
+                if not np.allclose(em, np.diag(np.diag(em))):
+                    raise ValueError("non-diagonal operator in an exponent")
+                with np.errstate(all="ignore"):
+                    return np.diag(np.diag(b).astype(complex) ** np.diag(em).astype(complex))
             with np.errstate(all="ignore"):
                 return np.diag(np.diag(b).astype(complex) ** complex(e))
         if isinstance(expr, NumberOperator):
